@@ -677,6 +677,7 @@ def _parse_source_for_lambda(
     func_name = None
     start_token = None
     source, lambda_line = _get_sourcelines(ast_source)
+    first_line = lambda_line
     t_stream = None
     while func_name is None:
         # Setup the tokenizer
@@ -705,7 +706,10 @@ def _parse_source_for_lambda(
         saw_new_line = False
         while not saw_new_line:
             lda, saw_new_line = _get_lambda_in_stream(t_stream, start_token)
-            lambdas_on_a_line[func_name.string if func_name is not None else None].append(lda)
+            # Only a lambda that starts on the callable's own first line can be the callable
+            # (the scan may have backed up to earlier lines to find the calling method's name).
+            if lambda_line + start_token.start[0] - 1 == first_line:
+                lambdas_on_a_line[func_name.string if func_name is not None else None].append(lda)
 
             if saw_new_line:
                 break
